@@ -141,7 +141,7 @@ class _R:
             given = dict((n, v) for n, v in fields)
             order = gv.CALL_FIELDS[name]
             items = []
-            positional = self.level and self.flip(0.06) and name not in ("PModel", "PAlias")
+            positional = self.level and self.flip(0.06) and name not in ("PModel", "PAlias", "PHidden", "PExtra")
             # positional prefix only for leading fields present
             if positional:
                 npos = 0
@@ -171,7 +171,8 @@ class _R:
             if self.level and len(items) - npos >= 2 and self.flip(0.2):
                 kws = self.draw(st.permutations(items[npos:]))
                 items = items[:npos] + list(kws)
-            return self.seq(name + "(", items, ")", indent=indent)
+            callee = f"({name})" if self.level and self.flip(0.04) else name
+            return self.seq(callee + "(", items, ")", indent=indent)
         if k == "vec":
             return self.seq("Vec(", [self.render(x, indent + 1) for x in d[1]], ")", indent=indent)
         if k == "ddict":
@@ -187,6 +188,7 @@ ALL_DEFAULTS = {
     "PModel": [("tags", "[]"), ("opt", "None")],
     "NT": [("b", "0")], "TNT": [("q", "'q'")], "Outer.Cfg": [("n", "0")],
     "APriv": [("y", "2")], "PAlias": [("other", "3")],
+    "Hidden": [("b", "3")], "AHidden": [("b", "3")], "PHidden": [("b", "3")], "PExtra": [],
 }
 
 
